@@ -504,6 +504,9 @@ impl Ctx {
                         // minutes of work after the shrinking budget has already run out
                         max_flat_map_regens: 2_000,
                         max_global_rejects: 100_000,
+                        // rejections are counted over the whole run, so a rare filter would end a
+                        // long run with 'too many local rejects'
+                        max_local_rejects: u32::MAX,
                         ..Config::default()
                     };
                     let mut runner = TestRunner::new(config);
